@@ -96,7 +96,7 @@ VARIABLE hcase
 HCases == UNION {{[shape |-> s, mut |-> mu, bidx |-> b] : mu \in Mutations(s), b \in DOMAIN Bodies} : s \in Shapes}
 HInit == /\ hcase \in HCases
          /\ prog = hcase.mut.pre \o Bodies[hcase.bidx] /\ phase = "done" /\ nfun = 1 /\ body = 0 /\ open = <<>> /\ elseOK = 0
-         /\ ndecl = 0 /\ viol = NoViol /\ scope = << [name |-> "GlobalScope", multi |-> FALSE] >>
+         /\ ndecl = 0 /\ viol = NoViol /\ scope = << [name |-> "GlobalScope", multi |-> FALSE] >> /\ wrapped = FALSE
 HNext == UNCHANGED <<nvars, hcase>>
 HSpec == HInit /\ [][HNext]_<<nvars, hcase>>
 
